@@ -1,12 +1,369 @@
-/-! Executable model for property C20 (core-only).  Not built yet: the driver answers
-    `unimplemented` so that a check of this property cannot pass by accident. -/
+import FpgoVerif.Model.C20Comb
+import FpgoVerif.Model.C20Match
+/-! Executable model for property C20 (core-only): the line protocol over the models of
+    `Model/C20Comb.lean` (Compose/Pipe, adapters, Trampoline, CurryDef) and `Model/C20Match.lean`
+    (pattern matching, sum types).  `handle` answers with the implementation model, `judge` with the Spec.
+
+    Case lines (see harness/c20.go for the same grammar on the Go side):
+      cp <C|CI|P|PI> <ints>: f ; f ; …            Compose / ComposeInterface / Pipe / PipeInterface
+      cg <C|P> <k> <ints>: f ; f ; …              regrouped at k: X(X(fs[:k]), X(fs[k:]))
+      ad <adapter> <bound ints>: <ints>           one adapter call
+      tr <kd> <ke> <mode>: <ints>                 Trampoline with the step family
+      cu <G|I> <n>: c:<ints> ; d ; r ; i ; …      CurryDef script (Call / MarkDone / Result / IsDone)
+      cs <g> <m> <a> <n> <y>                      concurrent Call stress (monitor)
+      m <probe>: pat ; pat ; …   e <probe>: …     MatchFor / Either
+      nd <ct> <objs>   tm <ct> <objs>   mc <ct> <ct> <objs>     NewCompData / Matches / MatchCompType -/
+
 namespace FpgoVerif.C20
 
-/-- one protocol case line in, one canonical observation line out -/
-def handle (_line : String) : String := "unimplemented"
+/-! ## small parsing / rendering helpers -/
 
-/-- spec-level oracle: given the case line and the observation printed by the real code, decide
-    whether the *property* is violated (`violation <why>`) or not (`allowed <why>`). -/
-def judge (_line _impl : String) : String := "violation model-and-implementation-disagree"
+def parseInts (s : String) : List Int :=
+  if s == "-" || s == "" then [] else (s.splitOn ",").map (fun t => t.toInt?.getD 0)
+
+def showInts (l : List Int) : String :=
+  if l.isEmpty then "-" else ",".intercalate (l.map toString)
+
+def toks (body : String) : List String :=
+  ((body.splitOn " ; ").map (fun t => t.trimAscii.toString)).filter (fun t => t != "" && t != "-")
+
+def dropS (s : String) (n : Nat) : String := String.ofList (s.toList.drop n)
+
+/-- `head: body` → (words of head, body) -/
+def splitCase (line : String) : List String × String :=
+  match line.splitOn ": " with
+  | [] => ([], "")
+  | h :: rest => ((h.splitOn " ").filter (· != ""), ": ".intercalate rest)
+
+/-! ## the function family of the Compose/Pipe correspondence (same definitions in harness/c20.go) -/
+
+def sumL (l : List Int) : Int := l.foldl (· + ·) 0
+
+def fnOfTok (t : String) : Fn Int :=
+  if t == "r" then total List.reverse
+  else if t == "t" then total (fun s => s.drop 1)
+  else if t == "s" then total (fun s => [sumL s])
+  else if t == "d" then total (fun s => s ++ s)
+  else if t == "v1" then makeVariadicParam1 (fun a => [3 * a + 1])
+  else if t == "v2" then makeVariadicParam2 (fun a b => [a - b, 2 * a + b])
+  else if t == "v3" then makeVariadicParam3 (fun a b c => [c, a, b])
+  else if t == "w2" then total (makeVariadicReturn2 (fun s => (sumL s, (s.length : Int))))
+  else if t.startsWith "a" then
+    match (dropS t 1).splitOn "." with
+    | [m, i] => let m := m.toInt?.getD 1; let i := i.toInt?.getD 0; total (fun s => s.map (fun x => m * x + i))
+    | _ => fun _ => .panic
+  else if t.startsWith "p" then
+    let k := (dropS t 1).toInt?.getD 0; total (fun s => k :: s)
+  else if t.startsWith "c1." then
+    let k := (dropS t 3).toInt?.getD 0
+    total (curryParam1 (fun (a : Int) rest => rest.map (· + a) ++ [a]) k)
+  else if t.startsWith "n" then
+    let k := (dropS t 1).toInt?.getD 0
+    total (makeNumericReturnForVariadicParamReturnBool1 (fun s => decide (sumL s > k)))
+  else fun _ => .panic
+
+def showRes : Res (List Int) → String
+  | .ok l => "ok " ++ showInts l
+  | .panic => "panic"
+
+def runCP (impl : Bool) (variant : String) (input : List Int) (fs : List (Fn Int)) : String :=
+  let isCompose := variant == "C" || variant == "CI"
+  showRes (if impl then (if isCompose then compose fs input else pipe fs input)
+           else (if isCompose then Spec.compose fs input else Spec.pipe fs input))
+
+def runCG (impl : Bool) (variant : String) (k : Nat) (input : List Int) (fs : List (Fn Int)) : String :=
+  let isCompose := variant == "C"
+  if !impl then showRes (if isCompose then Spec.compose fs input else Spec.pipe fs input)
+  else if 0 < k && k < fs.length then
+    let a := fs.take k; let b := fs.drop k
+    showRes (if isCompose then compose [compose a, compose b] input else pipe [pipe a, pipe b] input)
+  else showRes (if isCompose then compose fs input else pipe fs input)
+
+/-! ## adapters -/
+
+def wsum (args : List Int) : Int := ((args.zipIdx).map (fun (x, i) => ((i : Int) + 1) * x)).foldl (· + ·) 0
+def rj (j : Int) (args : List Int) : Int := 1000 * j + wsum args
+
+def runAdapterImpl (name : String) (b : List Int) (args : List Int) : Res (List Int) :=
+  let g (i : Nat) : Int := b.getD i 0
+  match name with
+  | "vp1" => makeVariadicParam1 (fun a0 => [a0]) args
+  | "vp2" => makeVariadicParam2 (fun a0 a1 => [a0, a1]) args
+  | "vp3" => makeVariadicParam3 (fun a0 a1 a2 => [a0, a1, a2]) args
+  | "vp4" => makeVariadicParam4 (fun a0 a1 a2 a3 => [a0, a1, a2, a3]) args
+  | "vp5" => makeVariadicParam5 (fun a0 a1 a2 a3 a4 => [a0, a1, a2, a3, a4]) args
+  | "vp6" => makeVariadicParam6 (fun a0 a1 a2 a3 a4 a5 => [a0, a1, a2, a3, a4, a5]) args
+  | "vr1" => .ok (makeVariadicReturn1 (fun s => rj 1 s) args)
+  | "vr2" => .ok (makeVariadicReturn2 (fun s => (rj 1 s, rj 2 s)) args)
+  | "vr3" => .ok (makeVariadicReturn3 (fun s => (rj 1 s, rj 2 s, rj 3 s)) args)
+  | "vr4" => .ok (makeVariadicReturn4 (fun s => (rj 1 s, rj 2 s, rj 3 s, rj 4 s)) args)
+  | "vr5" => .ok (makeVariadicReturn5 (fun s => (rj 1 s, rj 2 s, rj 3 s, rj 4 s, rj 5 s)) args)
+  | "vr6" => .ok (makeVariadicReturn6 (fun s => (rj 1 s, rj 2 s, rj 3 s, rj 4 s, rj 5 s, rj 6 s)) args)
+  | "cs1" => .ok (curryParam1ForSlice1 (fun (a : Int) rest => [a, -1] ++ rest) (g 0) args)
+  | "cp1" => .ok (curryParam1 (fun (a : Int) rest => [a, -1] ++ rest) (g 0) args)
+  | "cp2" => .ok (curryParam2 (fun (a b : Int) rest => [a, b, -1] ++ rest) (g 0) (g 1) args)
+  | "cp3" => .ok (curryParam3 (fun (a b c : Int) rest => [a, b, c, -1] ++ rest) (g 0) (g 1) (g 2) args)
+  | "cp4" => .ok (curryParam4 (fun (a b c d : Int) rest => [a, b, c, d, -1] ++ rest) (g 0) (g 1) (g 2) (g 3) args)
+  | "cp5" => .ok (curryParam5 (fun (a b c d e : Int) rest => [a, b, c, d, e, -1] ++ rest) (g 0) (g 1) (g 2) (g 3) (g 4) args)
+  | "cp6" => .ok (curryParam6 (fun (a b c d e f : Int) rest => [a, b, c, d, e, f, -1] ++ rest)
+      (g 0) (g 1) (g 2) (g 3) (g 4) (g 5) args)
+  | "nv" => .ok (makeNumericReturnForVariadicParamReturnBool1 (fun s => decide (sumL s > g 0)) args)
+  | "ns" => .ok (makeNumericReturnForVariadicParamReturnBool1 (fun s => decide (sumL s > g 0)) args)
+  | "np" => makeNumericReturnForParam1ReturnBool1 (fun a => decide (a > g 0)) args
+  | _ => .panic
+
+/-- the property's statement about adapters: "pass exactly the bound and supplied arguments in order" -/
+def runAdapterSpec (name : String) (b : List Int) (args : List Int) : Res (List Int) :=
+  let n := ((dropS name 2).toNat?).getD 0
+  if name.startsWith "vp" then (if args.length < n then .panic else .ok (args.take n))
+  else if name.startsWith "vr" then .ok ((List.range n).map (fun (j : Nat) => rj ((j : Int) + 1) args))
+  else if name.startsWith "cp" then .ok ((List.range n).map (fun (i : Nat) => b.getD i 0) ++ [-1] ++ args)
+  else if name == "cs1" then .ok ([b.getD 0 0, -1] ++ args)
+  else if name == "nv" || name == "ns" then .ok (if sumL args > b.getD 0 0 then [1] else [0])
+  else if name == "np" then
+    match args with
+    | a :: _ => .ok (if a > b.getD 0 0 then [1] else [0])
+    | [] => .panic
+  else .panic
+
+/-! ## Trampoline step family -/
+
+def trStep (kd ke mode : Int) (s : List Int) : StepOut Int :=
+  let c := s.headD 0
+  let isErr := c == ke
+  { result := (c + 1) :: (s.drop 1).map (fun x => (3 * x + c) % 1009),
+    isDone := decide (c + 1 ≥ kd) || (mode == 1 && isErr),
+    err := if isErr then some c.toNat else none }
+
+def trFuel : Nat := 100000
+
+def showT : TRes Int → String
+  | .ok l => "ok " ++ showInts l
+  | .err e => s!"err {e}"
+  | .hang => "hang"
+
+/-! ## CurryDef scripts -/
+
+def curryFn (n : Int) : CurryFn := fun args =>
+  (1000 * (args.length : Int) + wsum args, decide (n ≥ 0 ∧ (args.length : Int) ≥ n))
+
+def curryTokImpl (fn : CurryFn) (c : Curry) (tok : String) : Curry × String :=
+  if tok.startsWith "c:" then
+    let a := parseInts (dropS tok 2)
+    let c' := c.callSeq fn a
+    (c', if c'.log.length > c.log.length then "f " ++ showInts (c'.log.getLastD []) else "skip")
+  else if tok == "d" then (c.markDone, "nil")
+  else if tok == "r" then (c, toString c.result)
+  else if tok == "i" then (c, toString c.isDone)
+  else (c, "bad-op")
+
+def curryTokSpec (fn : CurryFn) (c : Spec.CurryS) (tok : String) : Spec.CurryS × String :=
+  if tok.startsWith "c:" then
+    let a := parseInts (dropS tok 2)
+    let c' := c.call fn a
+    (c', if c.isDone then "skip" else "f " ++ showInts (c.args ++ a))
+  else if tok == "d" then (c.markDone, "nil")
+  else if tok == "r" then (c, toString c.result)
+  else if tok == "i" then (c, toString c.isDone)
+  else (c, "bad-op")
+
+def runScript {σ : Type} (step : σ → String → σ × String) (init : σ) (ts : List String) : String :=
+  let (_, outs) := ts.foldl (fun (acc : σ × List String) t =>
+    let (c, o) := step acc.1 t
+    (c, o :: acc.2)) (init, [])
+  " | ".intercalate outs.reverse
+
+/-- the stress monitor's deterministic summary: number of accepted Calls and final argument count -/
+def runCS (g m a n : Int) : String :=
+  if n == -2 then "ok" else
+  let total := g * m
+  let accepted : Int := if n < 0 then total else if a ≤ 0 then total
+    else min total (if n ≤ 0 then 1 else (n + a - 1) / a)
+  s!"ok calls={accepted} len={accepted * a}"
+
+/-! ## values, types and patterns: parsing and rendering -/
+
+def parseFTag (s : String) : FTag :=
+  if s == "nan" then .nan else if s == "nz" then .negzero else .half ((dropS s 1).toInt?.getD 0)
+
+def showFTag : FTag → String
+  | .half n => s!"h{n}"
+  | .nan => "nan"
+  | .negzero => "nz"
+
+def parseSlice (s : String) : List Int :=
+  if s == "" then [] else (s.splitOn "+").map (fun t => t.toInt?.getD 0)
+
+def parseAtom (s : String) : Atom :=
+  match s.splitOn ":" with
+  | ["nil"] => .nil
+  | ["b", v] => .bool (v == "1")
+  | ["i", k, v] => .int (k.toNat?.getD 2) (v.toInt?.getD 0)
+  | ["f", k, v] => .flt (k.toNat?.getD 14) (parseFTag v)
+  | ["s", v] => .str false v
+  | ["ns", v] => .str true v
+  | ["np", t] => .nilptr (t.toNat?.getD 0)
+  | ["st", t, p] => .strct (t.toNat?.getD 0) (p.toInt?.getD 0)
+  | ["p", t, a] => .ptr (t.toNat?.getD 0) (a.toNat?.getD 0)
+  | ["sl", v] => if v == "n" then .slice true [] else .slice false (parseSlice v)
+  | ["mp", v] => .mapv (v == "n")
+  | _ => .nil
+
+def showAtom : Atom → String
+  | .nil => "nil"
+  | .bool b => if b then "b:1" else "b:0"
+  | .int k v => s!"i:{k}:{v}"
+  | .flt k f => s!"f:{k}:{showFTag f}"
+  | .str false s => "s:" ++ s
+  | .str true s => "ns:" ++ s
+  | .nilptr t => s!"np:{t}"
+  | .strct t p => s!"st:{t}:{p}"
+  | .ptr t a => s!"p:{t}:{a}"
+  | .slice true _ => "sl:n"
+  | .slice false es => "sl:" ++ "+".intercalate (es.map toString)
+  | .mapv n => if n then "mp:n" else "mp:e"
+
+def parseObjs (s : String) : List Atom :=
+  if s == "-" || s == "" then [] else (s.splitOn ",").map parseAtom
+
+def showObjs (l : List Atom) : String := "[" ++ ",".intercalate (l.map showAtom) ++ "]"
+
+/-- Polish notation over `.`: `N` | `P.<n>.<k>…` | `S.<n>.<t>…` -/
+def parseCT : Nat → List String → Option (CompType × List String)
+  | 0, _ => none
+  | fuel + 1, ts =>
+    match ts with
+    | "N" :: rest => some (.nilT, rest)
+    | "P" :: n :: rest =>
+      let n := n.toNat?.getD 0
+      some (.prod ((rest.take n).map (fun k => k.toNat?.getD 0)), rest.drop n)
+    | "S" :: n :: rest =>
+      let n := n.toNat?.getD 0
+      let rec go : Nat → List String → List CompType → Option (List CompType × List String)
+        | 0, r, acc => some (acc.reverse, r)
+        | i + 1, r, acc =>
+          match parseCT fuel r with
+          | some (t, r') => go i r' (t :: acc)
+          | none => none
+      match go n rest [] with
+      | some (tsub, r) => some (.sum tsub, r)
+      | none => none
+    | _ => none
+
+def parseCompType (s : String) : CompType :=
+  match parseCT 64 (s.splitOn ".") with
+  | some (t, _) => t
+  | none => .sum []
+
+/-- probe syntax: atom | `c/<ct>/<objs>` (a `CompData` value) | `cp:<addr>/<ct>/<objs>` (`NewCompData` result) -/
+def parseGoVal (s : String) : GoVal :=
+  match s.splitOn "/" with
+  | [h, ct, objs] =>
+    let t := parseCompType ct
+    let os := parseObjs objs
+    if h == "c" then (match newCompData t os with | some o => .comp o | none => .comp [])
+    else
+      let addr := (dropS h 3).toNat?.getD 0
+      match newCompData t os with
+      | some o => .compptr addr o
+      | none => .atom (.nilptr 2)
+  | _ => .atom (parseAtom s)
+
+def showGoVal : GoVal → String
+  | .atom a => showAtom a
+  | .comp objs => "c" ++ showObjs objs
+  | .compptr a objs => s!"cp:{a}" ++ showObjs objs
+
+def parsePat (s : String) : Pat :=
+  if s == "O" then .otherwise
+  else if s.startsWith "K:" then .kind ((dropS s 2).toNat?.getD 0)
+  else if s.startsWith "E:" then .equal (parseGoVal (dropS s 2))
+  else if s.startsWith "R:" then .regex (dropS s 2)
+  else if s.startsWith "T:" then .sumT (parseCompType (dropS s 2))
+  else .otherwise
+
+def parsePatterns (ts : List String) : List Pattern :=
+  (ts.zipIdx).map (fun (t, i) => ⟨parsePat t, i⟩)
+
+/-! ## the regex family: exact semantics of the patterns the harness builds from these ids
+    (`lit:x` ↦ `x`, `pre:x` ↦ `^x`, `suf:x` ↦ `x$`, `full:x` ↦ `^x$`, `dig` ↦ `^[0-9]+$`, `any` ↦ ``,
+    `bad` ↦ `(` which does not compile), for texts and `x` over `[a-z0-9]`. -/
+
+def isInfixL : List Char → List Char → Bool
+  | p, [] => p.isEmpty
+  | p, c :: cs => p.isPrefixOf (c :: cs) || isInfixL p cs
+
+def rxFamily (r : String) (s : String) : Bool :=
+  match r.splitOn ":" with
+  | ["lit", x] => isInfixL x.toList s.toList
+  | ["pre", x] => x.toList.isPrefixOf s.toList
+  | ["suf", x] => x.toList.isSuffixOf s.toList
+  | ["full", x] => x == s
+  | ["dig"] => !s.isEmpty && s.all Char.isDigit
+  | ["any"] => true
+  | _ => false
+
+def showMatch : Res (Nat × GoVal) → String
+  | .ok (e, v) => s!"e{e} " ++ showGoVal v
+  | .panic => "panic"
+
+/-! ## protocol -/
+
+def run (impl : Bool) (line : String) : String :=
+  let (head, body) := splitCase line
+  match head with
+  | ["cp", variant, input] =>
+    runCP impl variant (parseInts input) ((toks body).map fnOfTok)
+  | ["cg", variant, k, input] =>
+    runCG impl variant (k.toNat?.getD 0) (parseInts input) ((toks body).map fnOfTok)
+  | ["ad", name, b] =>
+    showRes ((if impl then runAdapterImpl else runAdapterSpec) name (parseInts b) (parseInts body.trimAscii.toString))
+  | ["tr", kd, ke, mode] =>
+    let fn := trStep (kd.toInt?.getD 1) (ke.toInt?.getD (-1)) (mode.toInt?.getD 0)
+    let s := parseInts body.trimAscii.toString
+    showT (if impl then trampoline fn trFuel s else Spec.trampoline fn trFuel s)
+  | ["cu", _, n] =>
+    let fn := curryFn (n.toInt?.getD (-1))
+    if impl then runScript (curryTokImpl fn) (Curry.init []) (toks body)
+    else runScript (curryTokSpec fn) Spec.CurryS.init (toks body)
+  | ["cs", g, m, a, n, _] =>
+    runCS (g.toInt?.getD 1) (m.toInt?.getD 1) (a.toInt?.getD 1) (n.toInt?.getD (-1))
+  | [mode, probe] =>
+    if mode == "m" || mode == "e" then
+      let ps := parsePatterns (toks body)
+      let v := parseGoVal probe
+      showMatch (if impl then (if mode == "m" then matchFor rxFamily ps v else either rxFamily v ps)
+                 else Spec.matchFor rxFamily ps v)
+    else "bad-case"
+  | ["nd", ct, objs] =>
+    let t := parseCompType ct
+    let os := parseObjs objs
+    if impl then
+      match newCompData t os with
+      | none => "nil"
+      | some o => s!"cd {showObjs o} {matchCompType t o} {matchCompType t o}"
+    else if Spec.typeMatches t os then s!"cd {showObjs os} true true" else "nil"
+  | ["tm", ct, objs] =>
+    let t := parseCompType ct
+    toString (if impl then t.matches (parseObjs objs) else Spec.typeMatches t (parseObjs objs))
+  | ["mc", ct1, ct2, objs] =>
+    let t1 := parseCompType ct1
+    let t2 := parseCompType ct2
+    let os := parseObjs objs
+    if impl then
+      match newCompData t2 os with
+      | none => "nil"
+      | some o => toString (matchCompType t1 o)
+    else if Spec.typeMatches t2 os then toString (Spec.typeMatches t1 os) else "nil"
+  | _ => "bad-case"
+
+/-- protocol entry point: the implementation model -/
+def handle (line : String) : String := run true line
+
+/-- spec-level oracle: the property's own statement evaluated on the case -/
+def judge (line impl : String) : String :=
+  let spec := run false line
+  if impl = spec then "allowed implementation agrees with the property's statement (model differs)"
+  else s!"violation the property prescribes: {spec}"
 
 end FpgoVerif.C20
